@@ -21,6 +21,9 @@ func checkC11(c *Ctx, e *Env) {
 	p := m.P
 	noteUndecided(c, m, r, "C11.E1")
 	ruleUpdateTakesEffect(c, m, r, "C11.CRITERIA", map[string]bool{"basket.UpdateDateCriteria": true})
+	importObligations(c, e, checkC17, "C17", "C11.CONV", "date criteria#stored-as-given", "the criteria a curator sets reach the Basket row through the gogo → protobuf converters: they copy Seconds and Nanos (a converter that goes through Go's time types would store a different window than the one asked for)", func(o *Oblig) bool {
+		return o.Rule == "C17.CONV" && (o.Construct == "GogoToProtobufTimestamp" || o.Construct == "GogoToProtobufDuration")
+	})
 	put, take := r.byKey["basket.Put"], r.byKey["basket.Take"]
 	if put == nil || take == nil {
 		c.Undecide("C11.E1", "basket.Put/Take", "-", "handlers not found")
